@@ -276,14 +276,23 @@ def layer_api_routes(lmon, work, idx, valid_text, mtexts, sh):
     """The same strictness must hold where libcnb itself reads <layer>.toml: a document the strict parser rejects must not be
     accepted (and the layer silently deleted / recreated) through the layer API."""
     root = os.path.join(work, "c08-layers-%d" % os.getpid())
+    # the document that is read is <layers>/<name>.toml for the name as it is - also when the name has dots, or a sibling layer's
+    # name is its stem
+    L = ["L", "python-3.11", "a.b", "L"][idx % 4]
     for route, req in LAYER_ROUTES.items():
+        req = dict(req, name=L)
         for kind, where, text in [("valid", "-", valid_text)] + [m for m in mtexts if m[0] != "delete-required"]:
             vp.rmtree(root)
-            os.makedirs(os.path.join(root, "layers", "L"))
-            with open(os.path.join(root, "layers", "L", "payload"), "w") as f:
+            os.makedirs(os.path.join(root, "layers", L))
+            with open(os.path.join(root, "layers", L, "payload"), "w") as f:
                 f.write("precious cached content")
-            with open(os.path.join(root, "layers", "L.toml"), "w") as f:
+            with open(os.path.join(root, "layers", L + ".toml"), "w") as f:
                 f.write(text)
+            if "." in L:
+                # a sibling whose name is the stem, with a perfectly valid document of its own
+                os.makedirs(os.path.join(root, "layers", L.rsplit(".", 1)[0]))
+                with open(os.path.join(root, "layers", L.rsplit(".", 1)[0] + ".toml"), "w") as f:
+                    f.write('[types]\ncache = true\n\n[metadata]\nversion = "sibling"\n')
             lmon.call({"op": "init", "layers_dir": os.path.join(root, "layers"), "app_dir": root, "bp_dir": root})
             rep = lmon.call(req)
             sh.evaluations += 1
@@ -294,7 +303,7 @@ def layer_api_routes(lmon, work, idx, valid_text, mtexts, sh):
                 sh.nontrivial.add(("layer_toml", route, where, kind))
                 if "err" not in rep:
                     sh.violation("layer-api:%s:%s" % (route, kind), "%s accepts a <layer>.toml the strict parser rejects (%s at %s); result %r, layer content afterwards %r\n%s"
-                                 % (route, kind, where, rep.get("state") or "LayerData", sorted(os.listdir(os.path.join(root, "layers", "L"))) if os.path.isdir(os.path.join(root, "layers", "L")) else None, text[:300]), case)
+                                 % (route, kind, where, rep.get("state") or "LayerData", sorted(os.listdir(os.path.join(root, "layers", L))) if os.path.isdir(os.path.join(root, "layers", L)) else None, text[:300]), case)
     vp.rmtree(root)
 
 
